@@ -83,3 +83,93 @@ Theorem C10_source_failed_header_not_kept : forall r w bg th,
     exists w' wr, CPTVFileRecorder_StartRecording fext r bg th w = Ok (r, 1) w' /\
                last (fw_log w') (EAutoFFC true) = EClose wr.
 Proof. exact tie_start_fails_at_header. Qed.
+
+(* ---- source tie: the start-up clean-up deleteTempFiles as it is in /repo now ----
+   coq/translated/FileCleanup.v is regenerated from cmd/thermal-recorder/cptvfilerecorder.go on every run (the three
+   nested range loops are Gallina loops; path.Join, filepath.Join, filepath.Glob, os.Remove leave the translation);
+   model/CleanExt.v states what those calls mean on a directory tree whose recorder files are the file system of
+   model/FileRec.v and which holds any other files besides; proofs/TieClean.v proves, for every tree without duplicate
+   directory entries, every rendering of time stamps, every os.Remove fault script:  *)
+From TR Require Import model.CleanExt translated.FileCleanup proofs.TieClean.
+
+(* no os.Remove fails: nil is returned and the recorder's files left are FileRec.v's [recover true true] - the recovery
+   step of the theorems above - of the files found: every *.cptv.temp and *.cptv.temp.tmp of BOTH directories is gone
+   whatever else is there and in whatever order, every .cptv is untouched; of the other files exactly those with such a
+   name are gone; one os.Remove per match, in the order directory, pattern, sorted name *)
+Theorem C10_source_cleanup_is_recovery : forall render t sc,
+    tree_wf t -> (forall i, (i < List.length (temp_matches render t))%nat -> nth i sc false = false) ->
+    exists w',
+      src_clean render t sc = Ok 0 w' /\
+      tr_fs (cw_tree w') = recover true true (tr_fs t) /\
+      tr_other (cw_tree w') = filter (fun e => negb (m_temp (snd e) || m_temptmp (snd e))) (tr_other t) /\
+      cw_log w' = map rm_ok (temp_matches render t).
+Proof. exact tie_clean_all. Qed.
+
+(* the (k+1)-th os.Remove fails: that error is returned, exactly the first k matches are gone, nothing else was tried *)
+Theorem C10_source_cleanup_failed_remove : forall render t sc k d n,
+    tree_wf t -> nth_error (temp_matches render t) k = Some (d, n) ->
+    (forall i, (i < k)%nat -> nth i sc false = false) -> nth k sc false = true ->
+    exists w',
+      src_clean render t sc = Ok ERR_REMOVE w' /\
+      cw_tree w' = remove_list t (firstn k (temp_matches render t)) /\
+      cw_log w' = map rm_ok (firstn k (temp_matches render t)) ++ [CRm d n false].
+Proof. exact tie_clean_kth_fails. Qed.
+
+(* C10's crash sentence with [recover] replaced by the translated source: after a kill at ANY point of ANY well-formed
+   call sequence, whatever other files the directories hold, the translated deleteTempFiles returns nil and leaves of
+   the recorder's files only names ending in .cptv, each a complete recording, and every finished recording *)
+Theorem C10_source_cleanup_after_kill : forall render cs p others sc,
+    wf_calls None (-1) cs = true -> (exists q, p ++ q = expand_all cs) -> NoDup others ->
+    let t := mkTree (fops_apply [] p) others in
+    (forall i, (i < List.length (temp_matches render t))%nat -> nth i sc false = false) ->
+    exists w',
+      src_clean render t sc = Ok 0 w' /\
+      tr_fs (cw_tree w') = recover true true (fops_apply [] p) /\
+      (forall n s, In (n, s) (tr_fs (cw_tree w')) -> n_ext n = Cptv /\ exists frames, s = Complete frames) /\
+      (forall n s, In (n, s) (fops_apply [] p) -> n_ext n = Cptv -> In (n, s) (tr_fs (cw_tree w'))).
+Proof. exact cleanup_after_kill. Qed.
+
+(* both functions of the unit are inside the translation *)
+Theorem C10_source_cleanup_translated : untranslated_FileCleanup = [].
+Proof. reflexivity. Qed.
+
+(* non-vacuity (evaluated): an unfinished recording OLDER than a finished one, scratch files, other files in both
+   directories - the clean-up leaves exactly the finished recordings and the unrelated files; a failing third remove *)
+Example C10_source_cleanup_ex :
+  show_clean (src_clean render3 ex_tree []) =
+    Some (0,
+          mkTree [(mkName DOut 5 Cptv, Complete [51; 52]); (mkName DConst 2 Cptv, Complete [21])]
+                 [(DOut, "notes.txt"%string); (DConst, "old.cptv.bak"%string)],
+          [CRm DOut (NRec 3 Temp) true; CRm DOut (NOther "zz.cptv.temp") true; CRm DOut (NRec 3 TempTmp) true;
+           CRm DConst (NRec 7 Temp) true; CRm DConst (NOther "a.cptv.temp.tmp") true]) /\
+  show_clean (src_clean render3 ex_tree [false; false; true]) =
+    Some (ERR_REMOVE,
+          mkTree [(mkName DOut 5 Cptv, Complete [51; 52]); (mkName DOut 3 TempTmp, Partial);
+                  (mkName DConst 7 Temp, Partial); (mkName DConst 2 Cptv, Complete [21])]
+                 [(DOut, "notes.txt"%string); (DConst, "old.cptv.bak"%string); (DConst, "a.cptv.temp.tmp"%string)],
+          [CRm DOut (NRec 3 Temp) true; CRm DOut (NOther "zz.cptv.temp") true; CRm DOut (NRec 3 TempTmp) false]).
+Proof. exact (conj (proj1 ex_clean_all) ex_clean_third_fails). Qed.
+
+(* ---- deleteExcessRecordings (the constant recorder's space reclaim, same unit) ----
+   It removes the lexicographically first *.cptv* name of the directory, one per round, until Statfs reports more than
+   30 % of the blocks available (integer arithmetic: at least 31 %); for EVERY fuel, tree, fault script and sequence of
+   Statfs answers the translated function computes [excess_model] (proofs/TieClean.v: tie_deleteExcessRecordings). *)
+Theorem C10_source_excess_reclaims : forall render d low hi rest t sc fuel,
+    tree_wf t ->
+    (List.length low <= List.length (glob_pred render t d m_anycptv))%nat -> (List.length low < fuel)%nat ->
+    Forall low_space low -> enough_space hi ->
+    (forall i, (i < List.length low)%nat -> nth i sc false = false) ->
+    let gone := map (pair d) (firstn (List.length low) (glob_pred render t d m_anycptv)) in
+    exists w',
+      src_excess render fuel d t sc (map answer low ++ answer hi :: rest) = Ok (Some 0) w' /\
+      cw_tree w' = remove_list t gone /\ cw_log w' = map rm_ok gone.
+Proof. exact tie_excess_reclaims. Qed.
+
+(* FINDING (latent, not reachable through the recorder's own call sequences): the pattern does not tell a finished
+   recording from one still being written - if the first name is an unfinished <T>.cptv.temp, that is what is unlinked *)
+Theorem C10_source_excess_unlinks_unfinished_first : forall render d t ts ns ba bl sf sc lg,
+    glob_pred render t d m_anycptv = NRec ts Temp :: ns ->
+    bl <> 0 -> Z.quot (ba * 100) bl <= 30 -> nth 0 sc false = false ->
+    excess_step render d ((false, (ba, bl)) :: sf) (t, sc, lg) =
+      (XNext, (tree_remove t d (NRec ts Temp), tl sc, lg ++ [CRm d (NRec ts Temp) true]), sf).
+Proof. exact excess_unlinks_unfinished_first. Qed.
